@@ -88,6 +88,8 @@ type Result struct {
 	MinDistinct    int                    `json:"min_distinct"`
 	WallS          float64                `json:"wall_s"`
 	Complete       bool                   `json:"complete"`
+	Sigs           []string               `json:"sigs,omitempty"` // the distinct non-trivial signatures (merged across shards by the driver)
+	Sets           map[string][]string    `json:"sets,omitempty"`
 }
 
 // Ctx is handed to a property workload.
@@ -97,6 +99,8 @@ type Ctx struct {
 	Seed     uint64
 	OnlyCase int // -1: all cases
 	Scale    float64
+	Shard    int // this child handles the cases with idx % Shards == Shard
+	Shards   int
 
 	mu       sync.Mutex
 	res      Result
@@ -149,7 +153,12 @@ func (c *Ctx) Rand(caseIdx int, stream string) *Rand {
 }
 
 // Skip tells a workload whether case idx is outside a replay selection.
-func (c *Ctx) Skip(idx int) bool { return c.OnlyCase >= 0 && idx != c.OnlyCase }
+func (c *Ctx) Skip(idx int) bool {
+	if c.OnlyCase >= 0 {
+		return idx != c.OnlyCase
+	}
+	return c.Shards > 1 && idx%c.Shards != c.Shard
+}
 
 // Case records, before the case runs, what is about to be executed.
 func (c *Ctx) Case(idx int, desc string) {
@@ -267,6 +276,18 @@ func (c *Ctx) Finish(complete bool) error {
 	c.mu.Lock()
 	defer c.mu.Unlock()
 	c.res.Distinct = len(c.sigs)
+	if c.Shards > 1 {
+		c.res.Sigs = make([]string, 0, len(c.sigs))
+		for k := range c.sigs {
+			c.res.Sigs = append(c.res.Sigs, k)
+		}
+		c.res.Sets = map[string][]string{}
+		for k, m := range c.sets {
+			for v := range m {
+				c.res.Sets[k] = append(c.res.Sets[k], v)
+			}
+		}
+	}
 	keys := make([]string, 0, len(c.counts))
 	for k := range c.counts {
 		keys = append(keys, k)
